@@ -2,7 +2,8 @@ package hls
 
 // Verification harness for C43 (HLS media is served only to authorized sessions). Injected by
 // /verif through -overlay. Every walk of the case file is replayed on its own real hls.Server
-// (hlsAlwaysRemux, trusted proxy 127.0.0.1 so that X-Forwarded-For sets the client IP) in front
+// (hlsAlwaysRemux; either with the trusted proxy 127.0.0.1, so that X-Forwarded-For sets the client IP, or
+// with an empty trusted-proxy list, real loopback peers 127.0.0.1 / 127.0.0.2 / ::1 and forged forwarding headers) in front
 // of real stream.Streams fed with H.264 units; the path manager is a harness object whose
 // decisions come from the REAL auth.Manager configured with the users of the case file.
 // The test records what came back; TLC decides (spec/auth/TraceHlsSession.tla).
@@ -11,6 +12,7 @@ import (
 	"encoding/base64"
 	"fmt"
 	"io"
+	"net"
 	"net/http"
 	"regexp"
 	"strings"
@@ -41,6 +43,8 @@ type vf43Probe struct {
 	Sid   int    `json:"sid"`
 	Place string `json:"place"`
 	IP    string `json:"ip"`
+	Fwd   string `json:"fwd"` // no trusted proxy: the address the forged forwarding header names ("" = no header)
+	Hdr   string `json:"hdr"` // xff, xreal, both
 	Auth  string `json:"auth"`
 }
 
@@ -50,6 +54,8 @@ type vf43Step struct {
 	Path   string      `json:"path"`
 	Cred   string      `json:"cred"`
 	IP     string      `json:"ip"`
+	Fwd    string      `json:"fwd"`
+	Hdr    string      `json:"hdr"`
 	Sid    int         `json:"sid"`
 	Probes []vf43Probe `json:"probes"`
 }
@@ -57,6 +63,7 @@ type vf43Step struct {
 type vf43Walk struct {
 	Walk    int        `json:"walk"`
 	CDNConf bool       `json:"cdnConf"`
+	Trusted bool       `json:"trusted"` // hlsTrustedProxies = [127.0.0.1] (client IP = forwarded address) or empty (= TCP peer)
 	Variant string     `json:"variant"`
 	Cookie  bool       `json:"cookie"` // the client keeps cookies (secret handed out in a cookie) or not (query parameter)
 	Steps   []vf43Step `json:"steps"`
@@ -119,6 +126,9 @@ type vf43Srv struct {
 	s       *Server
 	base    string
 	hc      *http.Client
+	trusted bool
+	port    string
+	peers   map[string]*http.Client      // no trusted proxy: one client per local address the requests come from
 	names   map[string]map[string]string // path -> kind -> file name
 	secrets []string                     // secrets in order of creation
 	spath   []string                     // path of each session
@@ -154,15 +164,53 @@ func vf43Authz(tok string) string {
 	return ""
 }
 
+const vf43PeerKey = "@peer"
+
+// addr says where a request comes from. With the trusted proxy the client address travels in
+// X-Forwarded-For; without it the request is sent from that local address (a real TCP peer) and
+// fwd, if any, is a FORGED forwarding header naming somebody else's address.
+func (x *vf43Srv) addr(ip, fwd, hdrKind string) map[string]string {
+	if x.trusted {
+		return map[string]string{"X-Forwarded-For": ip}
+	}
+	h := map[string]string{vf43PeerKey: ip}
+	if fwd != "" {
+		if hdrKind == "xff" || hdrKind == "both" {
+			h["X-Forwarded-For"] = fwd
+		}
+		if hdrKind == "xreal" || hdrKind == "both" {
+			h["X-Real-IP"] = fwd
+		}
+	}
+	return h
+}
+
 func (x *vf43Srv) get(url string, hdr map[string]string) (int, http.Header, []byte) {
-	req, err := http.NewRequest(http.MethodGet, x.base+url, nil)
+	hc, base := x.hc, x.base
+	if peer, ok := hdr[vf43PeerKey]; ok {
+		hc = x.peers[peer]
+		if hc == nil {
+			x.t.Fatalf("vf43: no client for peer %q", peer)
+		}
+		if strings.Contains(peer, ":") {
+			base = "http://[::1]:" + x.port
+		}
+		h2 := map[string]string{}
+		for k, v := range hdr {
+			if k != vf43PeerKey {
+				h2[k] = v
+			}
+		}
+		hdr = h2
+	}
+	req, err := http.NewRequest(http.MethodGet, base+url, nil)
 	if err != nil {
 		x.t.Fatal(err)
 	}
 	for k, v := range hdr {
 		req.Header.Set(k, v)
 	}
-	res, err := x.hc.Do(req)
+	res, err := hc.Do(req)
 	if err != nil {
 		x.t.Fatalf("vf43: GET %s: %v", url, err)
 	}
@@ -175,8 +223,7 @@ var vf43ReSecret = regexp.MustCompile(`session=([0-9a-f]{8}-[0-9a-f]{4}-[0-9a-f]
 
 // open requests the multivariant playlist as a player does (cookie check redirect, then the
 // playlist) and returns ("ok", secret, body) / ("refused" | "notfound" | "other", "", nil).
-func (x *vf43Srv) open(path, authz, ip string, cookies bool) (string, string, []byte) {
-	hdr := map[string]string{"X-Forwarded-For": ip}
+func (x *vf43Srv) open(path, authz string, hdr map[string]string, cookies bool) (string, string, []byte) {
 	if authz != "" {
 		hdr["Authorization"] = authz
 	}
@@ -280,16 +327,30 @@ func vf43Start(t testing.TB, mgr *auth.Manager, w *vf43Walk, rnd func() string) 
 	if w.CDNConf {
 		cdn = vf43CDNSecret
 	}
+	// without a trusted proxy the clients are distinct loopback peers (IPv4 and IPv6): listen on all interfaces
+	listen := func(addr string) string {
+		if w.Trusted {
+			return addr
+		}
+		_, port, _ := net.SplitHostPort(addr)
+		return ":" + port
+	}
+	obs := func() map[string]string {
+		if w.Trusted {
+			return map[string]string{"X-Forwarded-For": "10.0.0.99"}
+		}
+		return map[string]string{vf43PeerKey: "127.0.0.1"}
+	}
 	addr := verifc04.Listen(t, func(addr string) error {
 		x.s = &Server{
-			Address:         addr,
+			Address:         listen(addr),
 			AlwaysRemux:     true,
 			Variant:         conf.HLSVariant(variant),
 			SegmentCount:    7,
 			SegmentDuration: conf.Duration(1 * time.Second),
 			PartDuration:    conf.Duration(200 * time.Millisecond),
 			SegmentMaxSize:  50 * 1024 * 1024,
-			TrustedProxies:  verifc04.TrustedProxies(t, true),
+			TrustedProxies:  verifc04.TrustedProxies(t, w.Trusted),
 			CDNSecret:       cdn,
 			ReadTimeout:     conf.Duration(20 * time.Second),
 			WriteTimeout:    conf.Duration(20 * time.Second),
@@ -300,6 +361,21 @@ func vf43Start(t testing.TB, mgr *auth.Manager, w *vf43Walk, rnd func() string) 
 		return x.s.Initialize()
 	})
 	x.base = "http://" + addr
+	x.trusted = w.Trusted
+	_, x.port, _ = net.SplitHostPort(addr)
+	x.peers = map[string]*http.Client{}
+	var peerTransports []*http.Transport
+	if !w.Trusted {
+		for _, peer := range []string{"127.0.0.1", "127.0.0.2", "::1"} {
+			d := &net.Dialer{LocalAddr: &net.TCPAddr{IP: net.ParseIP(peer)}, Timeout: 10 * time.Second}
+			ptr := &http.Transport{DialContext: d.DialContext, MaxIdleConnsPerHost: 4}
+			peerTransports = append(peerTransports, ptr)
+			x.peers[peer] = &http.Client{
+				Transport: ptr, Timeout: 30 * time.Second,
+				CheckRedirect: func(*http.Request, []*http.Request) error { return http.ErrUseLastResponse },
+			}
+		}
+	}
 	tr := &http.Transport{MaxIdleConnsPerHost: 4}
 	x.hc = &http.Client{
 		Transport: tr, Timeout: 30 * time.Second,
@@ -307,6 +383,9 @@ func vf43Start(t testing.TB, mgr *auth.Manager, w *vf43Walk, rnd func() string) 
 	}
 	t.Cleanup(func() {
 		tr.CloseIdleConnections()
+		for _, ptr := range peerTransports {
+			ptr.CloseIdleConnections()
+		}
 		x.s.Close()
 		for _, s := range streams {
 			s.Close()
@@ -335,7 +414,7 @@ func vf43Start(t testing.TB, mgr *auth.Manager, w *vf43Walk, rnd func() string) 
 		deadline := time.Now().Add(20 * time.Second)
 		for {
 			var res string
-			res, secret, body = x.open(n, vf43Creds("alice"), "10.0.0.99", false)
+			res, secret, body = x.open(n, vf43Creds("alice"), obs(), false)
 			if res == "ok" {
 				break
 			}
@@ -349,7 +428,7 @@ func vf43Start(t testing.TB, mgr *auth.Manager, w *vf43Walk, rnd func() string) 
 			t.Fatalf("vf43: no media playlist in %q", string(body))
 		}
 		names := map[string]string{"playlist": plain[0]}
-		hdr := map[string]string{"X-Forwarded-For": "10.0.0.99"}
+		hdr := obs()
 		// the muxer consumes the units asynchronously: wait until the media playlist no longer changes
 		prev := ""
 		for {
@@ -426,7 +505,7 @@ func (x *vf43Srv) secretOf(sid int) string {
 
 func (x *vf43Srv) probe(p vf43Probe) map[string]any {
 	url := "/" + p.Path + "/" + x.names[p.Path][p.Kind]
-	hdr := map[string]string{"X-Forwarded-For": p.IP}
+	hdr := x.addr(p.IP, p.Fwd, p.Hdr)
 	if secret := x.secretOf(p.Sid); secret != "" {
 		if p.Place == "cookie" {
 			hdr["Cookie"] = sessionCookieName + "=" + secret
@@ -439,7 +518,7 @@ func (x *vf43Srv) probe(p vf43Probe) map[string]any {
 	}
 	status, _, body := x.get(url, hdr)
 	return map[string]any{
-		"op": "req", "kind": p.Kind, "path": p.Path, "sid": p.Sid, "place": p.Place, "ip": p.IP, "auth": p.Auth,
+		"op": "req", "kind": p.Kind, "path": p.Path, "sid": p.Sid, "place": p.Place, "ip": p.IP, "fwd": p.Fwd, "hdr": p.Hdr, "auth": p.Auth,
 		"status": status, "served": status == http.StatusOK && len(body) > 0,
 	}
 }
@@ -463,7 +542,7 @@ func vf43Replay(t testing.TB, mgr *auth.Manager, w *vf43Walk) map[string]any {
 			if st.Op == "openbearer" {
 				authz = vf43Authz(st.Bearer)
 			}
-			res, secret, _ := x.open(st.Path, authz, st.IP, w.Cookie)
+			res, secret, _ := x.open(st.Path, authz, x.addr(st.IP, st.Fwd, st.Hdr), w.Cookie)
 			sid := 0
 			if secret != "" {
 				x.secrets = append(x.secrets, secret)
@@ -471,7 +550,7 @@ func vf43Replay(t testing.TB, mgr *auth.Manager, w *vf43Walk) map[string]any {
 				sid = len(x.secrets)
 			}
 			events = append(events, map[string]any{
-				"op": "open", "path": st.Path, "cred": st.Cred, "ip": st.IP, "bearer": st.Bearer, "res": res, "sid": sid,
+				"op": "open", "path": st.Path, "cred": st.Cred, "ip": st.IP, "fwd": st.Fwd, "hdr": st.Hdr, "bearer": st.Bearer, "res": res, "sid": sid,
 			})
 		case "kick", "expire":
 			if st.Sid < 1 || st.Sid > len(x.secrets) {
@@ -527,7 +606,7 @@ func vf43Replay(t testing.TB, mgr *auth.Manager, w *vf43Walk) map[string]any {
 			events = append(events, x.probe(p))
 		}
 	}
-	return map[string]any{"walk": w.Walk, "cdnConf": w.CDNConf, "variant": w.Variant, "cookie": w.Cookie, "events": events}
+	return map[string]any{"walk": w.Walk, "trusted": w.Trusted, "cdnConf": w.CDNConf, "variant": w.Variant, "cookie": w.Cookie, "events": events}
 }
 
 func TestVerif_C43_Replay(t *testing.T) {
